@@ -919,6 +919,35 @@ macro_rules! run_catalogue {
                     $read($ctx, v);
                 }
             }
+            // thorough tier: sequences of three mutators (then all accessors), a stride sample of the nmut^3 space
+            // rotating with the vector index
+            if $pairs && nmut > 0 && $maxpairs > 1000 {
+                const MAXTRIPLES: usize = 3000;
+                let total = nmut * nmut * nmut;
+                let step = total.div_ceil(MAXTRIPLES).max(1);
+                let mut ti = ($idx as usize) % step;
+                while ti < total {
+                    let (a, b, cc) = (ti / (nmut * nmut), (ti / nmut) % nmut, ti % nmut);
+                    ti += step;
+                    set_m($ctx, Some(a), Some(b));
+                    let second = format!("{}+{}", names[b], names[cc]);
+                    set_name(&mut prog().m1name, &names[a]);
+                    set_name(&mut prog().m2name, &second);
+                    let Some(v) = fresh($ctx) else { break };
+                    let r = catch_unwind(AssertUnwindSafe(|| {
+                        let _ = $mutate(v, a);
+                        let _ = $mutate(v, b);
+                        let _ = $mutate(v, cc);
+                    }));
+                    $ctx.m1 = names[a].clone();
+                    $ctx.m2 = second;
+                    if let Err(e) = r {
+                        let m = panic_msg(e);
+                        $ctx.bad("Panic", "mutator", format!("a safe mutator panicked: {m}"));
+                    }
+                    $read($ctx, v);
+                }
+            }
         }
         $ctx.m1.clear();
         $ctx.m2.clear();
@@ -1222,9 +1251,9 @@ fn cpu_ticks(pid: i32) -> Option<u64> {
 }
 
 /// Run `work(i)` for i in 0..n inside child processes; a vector that kills the child (signal) or
-/// burns more than HANG_CPU_S seconds of CPU is reported and skipped.
+/// burns more than HANG_CPU_S seconds of its own CPU time is reported and skipped.
 fn supervise(n: u64, outp: &str, work: &dyn Fn(u64) -> Value) {
-    const HANG_CPU_S: f64 = 20.0;
+    const HANG_CPU_S: f64 = 90.0;
     unsafe {
         let p = libc::mmap(std::ptr::null_mut(), PAGE, libc::PROT_READ | libc::PROT_WRITE, libc::MAP_SHARED | libc::MAP_ANONYMOUS, -1, 0);
         if p == libc::MAP_FAILED {
